@@ -3,6 +3,7 @@ package props
 import (
 	"fmt"
 	"sort"
+	"strings"
 
 	sdk "github.com/cosmos/cosmos-sdk/types"
 	banktypes "github.com/cosmos/cosmos-sdk/x/bank/types"
@@ -53,6 +54,20 @@ func runC15(rc *RunCtx) {
 		return
 	}
 	defer c.Close()
+	// some accounts spell their own address in upper case in every provider message of the case (valid bech32, same
+	// signer); a provider is identified by the account, so a round trip under one spelling must behave like any other
+	upper := map[string]bool{}
+	for _, ac := range c.Accs {
+		if rc.Chance(0.2) {
+			upper[ac.Bech] = true
+		}
+	}
+	spell := func(a string) string {
+		if upper[a] {
+			return strings.ToUpper(a)
+		}
+		return a
+	}
 	escrow := chain.ModuleAddr(storagetypes.CollateralCollectorName).String()
 	if _, err := c.BeginBlock(dur(6)); err != nil {
 		rc.Abort("BeginBlock: " + err.Error())
@@ -94,6 +109,7 @@ func runC15(rc *RunCtx) {
 		sum := sdk.ZeroInt()
 		seen := map[string]bool{}
 		for _, r := range recs {
+			r.Address = c15Canon(r.Address)
 			sum = sum.Add(sdk.NewInt(r.Amount))
 			if seen[r.Address] {
 				rc.Fail("C15/duplicate-collateral-record", "after %s: two collateral records for %s", after, who(r.Address))
@@ -134,6 +150,7 @@ func runC15(rc *RunCtx) {
 		}
 		got := map[string]bool{}
 		for _, p := range vr.Providers {
+			p.Address = c15Canon(p.Address)
 			got[p.Address] = true
 			if !isProv[p.Address] {
 				rc.Fail("C15/provider-record-left", "after %s: provider record of %s exists although it is not (or no longer) registered", after, who(p.Address))
@@ -224,7 +241,7 @@ func runC15(rc *RunCtx) {
 			pre := c.Snapshot()
 			have := pre[a].AmountOf("ujkl")
 			was := isProv[a]
-			r := c.DeliverAs(i, &storagetypes.MsgInitProvider{Creator: a, Ip: fmt.Sprintf("https://p%d.example.com", i), Keybase: "kb", TotalSpace: 1_000_000_000_000})
+			r := c.DeliverAs(i, &storagetypes.MsgInitProvider{Creator: spell(a), Ip: fmt.Sprintf("https://p%d.example.com", i), Keybase: "kb", TotalSpace: 1_000_000_000_000})
 			d := chain.Diff(pre, c.Snapshot())
 			after := fmt.Sprintf("step %d h=%d InitProvider by acc%d (price %d, balance %s, provider before=%v) -> code %d", s, c.Height, i, price, have, was, r.Code)
 			rc.Logf("%s %.80q", after, r.Log)
@@ -262,7 +279,7 @@ func runC15(rc *RunCtx) {
 			was := isProv[a]
 			recorded := coll[a]
 			relation := rel(a, price)
-			r := c.DeliverAs(i, &storagetypes.MsgShutdownProvider{Creator: a})
+			r := c.DeliverAs(i, &storagetypes.MsgShutdownProvider{Creator: spell(a)})
 			d := chain.Diff(pre, c.Snapshot())
 			after := fmt.Sprintf("step %d h=%d ShutdownProvider by acc%d (provider=%v, recorded %d, current price %d) -> code %d", s, c.Height, i, was, recorded, price, r.Code)
 			rc.Logf("%s %.80q", after, r.Log)
@@ -297,7 +314,7 @@ func runC15(rc *RunCtx) {
 				pre := c.Snapshot()
 				was := isProv[a]
 				recorded := coll[a]
-				r := c.DeliverAs(i, &storagetypes.MsgShutdownProvider{Creator: a})
+				r := c.DeliverAs(i, &storagetypes.MsgShutdownProvider{Creator: spell(a)})
 				d := chain.Diff(pre, c.Snapshot())
 				after := fmt.Sprintf("step %d.%d h=%d ShutdownProvider by acc%d (provider=%v recorded %d) -> code %d", s, k, c.Height, i, was, recorded, r.Code)
 				rc.Logf("%s %.80q", after, r.Log)
@@ -337,7 +354,7 @@ func runC15(rc *RunCtx) {
 				return
 			}
 		case op < 89: // unrelated provider-record edit
-			r := c.DeliverAs(i, &storagetypes.MsgSetProviderTotalSpace{Creator: a, Space: int64(rc.Intn(1_000_000))})
+			r := c.DeliverAs(i, &storagetypes.MsgSetProviderTotalSpace{Creator: spell(a), Space: int64(rc.Intn(1_000_000))})
 			after := fmt.Sprintf("step %d h=%d SetProviderTotalSpace by acc%d -> code %d", s, c.Height, i, r.Code)
 			rc.Logf("%s", after)
 			if !check(after) {
@@ -407,7 +424,7 @@ func runC15(rc *RunCtx) {
 		pre := c.Snapshot()
 		recorded := coll[a]
 		relation := rel(a, price)
-		r := c.DeliverAs(idx, &storagetypes.MsgShutdownProvider{Creator: a})
+		r := c.DeliverAs(idx, &storagetypes.MsgShutdownProvider{Creator: spell(a)})
 		d := chain.Diff(pre, c.Snapshot())
 		after := fmt.Sprintf("wind-down h=%d ShutdownProvider by acc%d (recorded %d, current price %d) -> code %d", c.Height, idx, recorded, price, r.Code)
 		rc.Logf("%s %.80q", after, r.Log)
@@ -435,4 +452,11 @@ func runC15(rc *RunCtx) {
 		return
 	}
 	rc.Sample(map[string]interface{}{"initial_price": sp.CollateralPrice, "final_price": price, "gov": gov, "steps": steps, "first_ops": sample})
+}
+
+func c15Canon(a string) string {
+	if ad, err := sdk.AccAddressFromBech32(a); err == nil {
+		return ad.String()
+	}
+	return a
 }
